@@ -29,7 +29,9 @@ const LAYOUTS = {
   bmp_comments: (s) => s.replace(/\n {2}/g, '\n  /* ñ€ñ */ '),
   bmp_string_same_line: (s) => s.replace(/x = /, "y = 'ñ€—ñ'; x = ").replace(/return /, "'€'; return ")
 }
-const FILES = ['/p/app.js', 'app.js', './d/app.js', 'C:\\p\\app.js', '/p/my file ñ.js', '/p/app.min.mjs']
+const FILES = ['/p/app.js', 'app.js', './d/app.js', 'C:\\p\\app.js', '/p/my file ñ.js', '/p/app.min.mjs',
+  // names given to code that does not come from a file, and other legal oddities
+  '<anonymous>', '<eval>/generated/util.js', '/p/<gen>.js', 'file:///p/app.js', '/p/dir.with.dots/app', '/p/.hidden.js', '/p/a"quote.js', "/p/a'b.js", '/p/a%20b.js', '/p/日本.js', '/p/a$&b.js', '/p/[id].js', '/p/a,b;c.js']
 
 function posixBase (f) { return f.split('/').filter((x) => x.length).pop() }
 
